@@ -135,7 +135,7 @@ CHECKS = {
     "C13": dict(
         text="Machine-checked (Coq): in the history model a statement that raises returns the state unchanged, hence a history reaches exactly the state of the same history without its failing statements "
              "(C13_same_final_state_without_failing_statements, by induction over histories); the lock automaton restores every flag once the failed operation's locks are released. Fault enumeration on /repo: "
-             "13 kinds of failing statements (non-view ops, view ops, in-place updates incl. shape assignment) inserted at random positions of family histories, some after a mid-history backward: (a) the statement raises, "
+             "19 kinds of failing statements (non-view ops, view ops, in-place updates incl. shape assignment, backward with a bad seed, refused matrix norms, composite functions) inserted at random positions of family histories, some after a mid-history backward: (a) the statement raises, "
              "(b) every live tensor is bit-for-bit as before (value, shape, flag, base, sharing, writeable flag, gradient, creator/consumer state), (c) final values and gradients equal those of the program without the "
              "failing statements (run separately), (d) the functional model agrees, (e) pointer level: Model/Heap.v transcribes _in_place_op with its failure paths; theorems: a failing in-place statement (kernel failure, stale-view KeyError) "
              "returns tensor, operation, weak-collection and array tables EXACTLY as they were, in every heap reachable by leaf / operation / view / in-place statements; tie: the object graph after every statement of 400 (2500) histories "
